@@ -1536,7 +1536,8 @@ func natural() *Natural {
 	}
 	var queued []q
 	var ds []sim.Dgram
-	for i := 0; i < 300; i++ {
+	const nQueued = 900 // many concurrent cookie replies at full speed: races between handshake workers get their chance
+	for i := 0; i < nQueued; i++ {
 		p := peers[workers+i%4]
 		st := mk(p)
 		from := netip.AddrPortFrom(p.Addr.Addr(), uint16(3000+i))
@@ -1549,7 +1550,7 @@ func natural() *Natural {
 	deadline = time.Now().Add(3 * time.Second)
 	for {
 		_, _, h := w.Dev.VerifQueueLens()
-		if h >= 290 || time.Now().After(deadline) {
+		if h >= nQueued-10 || time.Now().After(deadline) {
 			break
 		}
 		time.Sleep(time.Millisecond)
@@ -1658,9 +1659,13 @@ func natural() *Natural {
 		tS1 := time.Now()
 		w.Bind.SendGate = func(bufs [][]byte, to netip.AddrPort) { time.Sleep(3 * time.Millisecond) }
 		var ds2 []sim.Dgram
+		burst2 := map[netip.AddrPort]*ref.InitiatorState{}
 		for i := 0; i < 500; i++ {
 			p := peers[workers+i%4]
-			ds2 = append(ds2, sim.Dgram{From: netip.AddrPortFrom(p.Addr.Addr(), uint16(5000+i)), Data: mk(p).Msg})
+			st2 := mk(p)
+			from2 := netip.AddrPortFrom(p.Addr.Addr(), uint16(5000+i))
+			burst2[from2] = st2
+			ds2 = append(ds2, sim.Dgram{From: from2, Data: st2.Msg})
 		}
 		// the burst must be over well before first detection + 1 s (else a deadline anchored to the FIRST detection
 		// would simply expire during the burst and be renewed), and the probe must come after that instant
@@ -1681,8 +1686,44 @@ func natural() *Natural {
 			return
 		}
 		w.Bind.SendGate = nil
-		w.Bind.TakeSent()
 		tQuiet = time.Now()
+		// every reply of the burst (the workers produce them concurrently) must be the reply to ITS offender:
+		// sent to the offender's source, carrying its index, opening with its MAC1, cookie bound to its source
+		sec2 := w.Dev.VerifCookieChecker()
+		var bad2 []string
+		n2 := 0
+		for _, sd := range w.Bind.TakeSent() {
+			d := sd.Data
+			if len(d) != ref.CookieSize || d[0] != ref.TypeCookie {
+				bad2 = append(bad2, fmt.Sprintf("second burst: datagram of type %d len %d to %s (want only cookie replies)", d[0], len(d), sd.To))
+				continue
+			}
+			n2++
+			x, ok := burst2[sd.To]
+			if !ok {
+				bad2 = append(bad2, "second burst: cookie reply to "+sd.To.String()+", from where no message came")
+				continue
+			}
+			if recv := binary.LittleEndian.Uint32(d[4:8]); recv != x.SenderIdx {
+				bad2 = append(bad2, fmt.Sprintf("second burst: cookie reply to %s carries index %d, the message had %d", sd.To, recv, x.SenderIdx))
+			}
+			_, c, err := ref.OpenCookieReply(d, w.DevPub, x.Mac1)
+			if err != nil {
+				bad2 = append(bad2, "second burst: cookie reply to "+sd.To.String()+" does not open with the MAC1 of the message from there")
+				continue
+			}
+			if mm := ref.Mac(sec2.Secret[:], addrBytes(sd.To)); !bytes.Equal(mm[:], c) {
+				bad2 = append(bad2, "second burst: cookie sent to "+sd.To.String()+" is not Mac(secret, that source)")
+			}
+		}
+		if n2 != len(burst2) {
+			bad2 = append(bad2, fmt.Sprintf("second burst: %d cookie replies for %d offending messages", n2, len(burst2)))
+		}
+		if len(bad2) > 0 {
+			nat.Status, nat.Detail = "violation", clip(bad2)
+			nat.Window = nat.Detail
+			return
+		}
 		if peak < 160 {
 			nat.Window = fmt.Sprintf("skipped: second burst reached only %d queued", peak)
 			return
